@@ -46,6 +46,7 @@ type Runner struct {
 	etxEmitted     map[int]etxRec
 	IndexChecks    int
 	DomCanonChecks int
+	ReceiptEtxChecks int
 	convSeen          map[string][]string
 	SiblingConvChecks int
 	craftExtra     []*types.Transaction
@@ -604,6 +605,27 @@ func (r *Runner) MineOn(parent int, wantOrder int) (int, error) {
 		}
 		if _, ok := after.Utxos[key]; ok {
 			r.Problems = append(r.Problems, Problem{"spent-output-still-present", map[string]interface{}{"block": id, "outpoint": key}})
+		}
+	}
+	// "the outbound set committed by a block is exactly the set recorded by its successful operations, in execution order": the
+	// receipts the node STORED for the block (validator side, one EVM shared by all transactions) list, per transaction, the ETXs
+	// it emitted; concatenated they must be the block's committed outbound list up to the protocol's own coinbase ETXs at its end
+	if rcs := r.E.Net.ZoneCore().Processor().GetReceiptsByHash(m.Hash); rcs != nil {
+		var rec []common.Hash
+		for _, rc := range rcs {
+			for _, e := range rc.OutboundEtxs {
+				rec = append(rec, e.Hash())
+			}
+		}
+		var com []common.Hash
+		for _, e := range zb.OutboundEtxs() {
+			if !types.IsCoinBaseTx(e) {
+				com = append(com, e.Hash())
+			}
+		}
+		r.ReceiptEtxChecks++
+		if fmt.Sprint(rec) != fmt.Sprint(com) {
+			r.Problems = append(r.Problems, Problem{"receipts-do-not-record-the-committed-outbound-set", map[string]interface{}{"block": id, "recorded": len(rec), "committed_non_coinbase": len(com)}})
 		}
 	}
 	ev["op"] = "mine"
